@@ -5,7 +5,7 @@ Reference models / oracles, all independent of gaftools (DESIGN 4.5).
 import re
 
 FLIP = {"+": "-", "-": "+"}
-COMP = str.maketrans("ACGTNacgtn", "TGCANtgcan")
+COMP = str.maketrans("ACGTNacgtnSWsw", "TGCANtgcanSWsw")  # S (G/C) and W (A/T) are their own complement
 
 
 def revcomp(s):
